@@ -494,6 +494,21 @@ func MapLife(r *prng.R) (string, []core.Event) {
 		b.WriteString("r1 = r1 + r2\nprint r1 (len r1)\nnoise r1 held\nprint r1 held\n")
 		return b.String(), nil
 	}
+	if r.Chance(0.25) {
+		// repetition copies nested composites: the copies and the original then go separate ways
+		// (keys deleted from one, added to another, elements overwritten) and are all printed again
+		k1, k2 := keys[r.Intn(3)], keys[r.Intn(3)]
+		n := r.Range(1, 3)
+		switch r.Intn(3) {
+		case 0:
+			fmt.Fprintf(&b, "arr := [%s] * %d\nprint arr\ndel arr[0] %q\nprint arr\ndel arr[%d] %q\narr[0].%s = 9\nprint arr (len arr[0]) (len arr[%d])\nfor m := range arr\n    print m (repr m) (sprint m)\n    for k := range m\n        print k m[k]\n    end\nend\n", lit, n+1, k1, n, k2, newKey, n)
+		case 1:
+			fmt.Fprintf(&b, "m := %s\narr := [m] * %d\ndel m %q\nm.%s = 4\nprint m arr\ndel arr[0] %q\nprint m arr (repr arr)\nm2 := arr[%d]\nm2.z = 1\ndel m2 \"a\"\nprint m arr m2\nfor k := range m\n    print k m[k]\nend\n", lit, n, k1, newKey, k2, n-1)
+		default:
+			fmt.Fprintf(&b, "rows := [[1 2] [3]] * %d\nrows[0][0] = 9\nrows[1] = rows[1] + [7]\nprint rows\nnested := [{j:{a:1 b:2 c:3} h:{d:4}}] * 2\ndel nested[0].j \"a\"\nnested[1].j.e = 5\ndel nested[1] \"h\"\ndel nested[1].j \"c\"\nnested[0].h.d = 0\nprint nested (repr nested)\ncells := [[{a:1 b:2 c:3}]] * 2\ndel cells[0][0] \"b\"\ndel cells[1][0] \"c\"\ncells[0][0].z = 1\nprint cells\nx:any\nx = nested[0]\nprint (typeof x) x\n", n+1)
+		}
+		return b.String(), nil
+	}
 	switch r.Intn(4) {
 	case 0: // procedure
 		fmt.Fprintf(&b, "func mk:{}any\n    return %s\nend\nm1 := mk\nm2 := mk\ndel m1 %q\nm1.%s = 7\nm3 := mk\nprint m1 m2 m3 (mk)\ndel m3 %q\nm3[%q] = 1\nprint m1 m2 m3 (len m1) (has m2 %q)\nfor k := range m2\n    print k m2[k]\nend\n", lit, delKey, newKey, keys[r.Intn(3)], newKey, delKey)
